@@ -295,12 +295,12 @@ func allTypes() []*typeDef {
 			OutName: func(fl url.Values, in string) string { return in + ".sig.json" }},
 		{Name: "rpm", Mod: "rpm", PGP: true, Shapes: rpmgen.Shapes, Must: constH(pgpDigests), Refuse: constH(nil)},
 		{Name: "deb", Mod: "deb", PGP: true, Cheap: true,
-			// shapes whose foreign _gpg* member holds arbitrary bytes are left out: the INPUT already fails
+			// shapes that carry a _gpg* member holding arbitrary (non-signature) bytes are left out: the INPUT already fails
 			// relic's verifier (it parses every _gpg* member), so "verifiable output" cannot be judged
 			Shapes: func(th bool) []shape.Shape {
 				var out []shape.Shape
 				for _, s := range debgen.Shapes(th) {
-					if !strings.HasPrefix(s.Class, "already-signed-third-party") {
+					if !strings.HasPrefix(s.Class, "already-signed-") {
 						out = append(out, s)
 					}
 				}
